@@ -15,6 +15,8 @@ CLAIMS['C07'] = dict(text='Modular functional verification of each grammar produ
              note='Bounded: N = 4 (quick) / 6 (thorough). Relative to the string/number token recognisers (C20, C09). Heap-free stand-ins for Value/containers/String. Prefix-freeness of the container grammar is a grammar fact used to relate the iff to the prefix clause.', ref='6/C07')
 CLAIMS['C06'] = dict(text='Compositional bounded model checking: structure - each production of the real parser accepts exactly its RFC 8259 production over fully symbolic buffers up to N units and builds the members in order with their keys and pass-through scalar payloads (completeness + tree shape; modular over nesting); strings - every \\uXXXX escape and surrogate pair through the real un-escaper for UTF-8/16/32 (finite domain, complete).',
              note='Numbers are delegated to C09; duplicate-key replacement to C13 (real HArray). Structure queries use recording stand-ins for Value/containers (the real container-kind Value is beyond reach of CBMC on this image). N = 4 (quick) / 6 (thorough).', ref='6/C06')
+CLAIMS['C01'] = dict(text='Bounded model checking of the template tag matcher (one Finder::Next step from an arbitrary cursor, with its progress/position contract) and of the attribute scanners (parseIfCase, parseLoopAttributes, checkLoopVariable) alone over exact-size fully symbolic buffers under the caller contract: every read inside the buffer, slices recorded in tag records inside the buffer, termination within the bound. The expression scanners are covered under C04.',
+             note='PARTIAL: the scanner driver TemplateCore::parse and the renderer over symbolic template text are out of reach of the bounded model checker on this image (one symbolic template byte or a symbolic truncation length: no verdict in 300 s) and are NOT covered; bounds N = 6 (quick) / 9 (thorough).', ref='6/C01')
 NA = {}
 def main():
     props = [json.loads(l)['id'] for l in open(os.path.join(ROOT, 'properties.jsonl'))]
